@@ -69,9 +69,42 @@ let run_commchk cid t =
   pr "RM" (fun q -> reverse (fun b a -> if a > b then a else b) w yi (List.map (fun _ -> 0) (List.nth ids q)) (nat_of_int q));
   pr "RL" (fun q -> reverse (fun b a -> if a >= 0 then a else b) w ysel (List.map (fun _ -> -1) (List.nth ids q)) (nat_of_int q))
 
+(* distributed matrix literal with explicit partitions: nr nc P frows[P+1] fcols[P+1] nnz (i j v)* *)
+let read_parlit t =
+  let nr = next_int t in let nc = next_int t in let p = next_int t in
+  let frows = next_ints t (p + 1) in let fcols = next_ints t (p + 1) in
+  let nnz = next_int t in
+  let trip = take nnz (fun () -> let i = next_nat t in let j = next_nat t in let v = next_q t in ((i, j), v)) in
+  (nr, nc, p, frows, fcols, trip)
+
+let slice l a b = List.filteri (fun i _ -> i >= a && i < b) l
+let slices l fs = let rec go = function a :: (b :: _ as tl) -> slice l a b :: go tl | _ -> [] in go fs
+let pr_ranks cid key f l =
+  Printf.printf "%s %s %s\n" cid key (String.concat " " (List.mapi (fun q v -> "@" ^ string_of_int q ^ " " ^ f v) l))
+
+(* cid pspmv kind <ParLit> nx X.. nb B.. *)
+let run_pspmv cid t =
+  let kind = next t in
+  let (nr, nc, p, frows, fcols, trip) = read_parlit t in
+  let nx = next_int t in let x = next_qs t nx in
+  let nb = next_int t in let b = next_qs t nb in
+  let st = q_assemble_all trip (nats frows) (nats fcols) in
+  let colmaps = List.map (fun rs -> rs.rs_colmap) st in
+  let w = build_world (nats fcols) colmaps (fun _ r -> r) in
+  let stale = q_of_int 777 in
+  let res = match kind with
+    | "mult" -> q_par_mult w st (slices x fcols)
+    | "mult_append" -> q_par_mult_append w st (slices x fcols) (slices b frows)
+    | "residual" -> q_par_residual w st (slices x fcols) (slices b frows)
+    | "mult_T" -> q_par_mult_T w st (slices x frows)
+                    (List.map (fun l -> List.map (fun _ -> stale) l) (slices (List.init nc (fun i -> i)) fcols))
+    | k -> failwith ("kind " ^ k) in
+  pr_ranks cid "V" qs_str res
+
 let run_case cid t =
   match next t with
   | "commchk" -> run_commchk cid t
+  | "pspmv" -> run_pspmv cid t
   | op -> Printf.printf "%s UNSUPPORTED %s\n" cid op
 
 let () =
